@@ -52,7 +52,7 @@ InstOf(ctx, T, v) ==
     [] T.k = "any"     -> TRUE
     [] T.k = "newtype" -> InstOf(ctx, T.sup, v)
     [] T.k = "annot"   -> InstOf(ctx, T.t, v)
-    [] T.k = "coll"    -> (CASE T.c = "list" -> v.k = "list" [] T.c = "vtuple" -> v.k = "tuple"
+    [] T.k = "coll"    -> (CASE T.c = "list" -> v.k = "list" [] T.c = "vtuple" -> v.k = "tuple" [] T.c = "seq" -> v.k \in {"list", "tuple"}
                              [] T.c = "set" -> v.k = "set" [] T.c = "fset" -> v.k = "fset")
     [] T.k = "tuple"   -> v.k = "tuple"
     [] T.k = "map"     -> v.k = "dict"
@@ -124,7 +124,7 @@ Ser(ctx, T, v) ==
     [] T.k = "annot"   -> Ser(ctx, T.t, v)
     [] T.k = "coll"    ->
          IF ~InstOf(ctx, T, v) THEN SErr("type")
-         ELSE IF T.c \in {"list", "vtuple"} THEN DArr([i \in DOMAIN v.a |-> Ser(ctx, T.e, v.a[i])])
+         ELSE IF T.c \in {"list", "vtuple", "seq"} THEN DArr([i \in DOMAIN v.a |-> Ser(ctx, T.e, v.a[i])])
          ELSE DBag({Ser(ctx, T.e, x) : x \in v.e})
     [] T.k = "tuple"   ->
          IF v.k # "tuple" \/ Len(v.a) # Len(T.es) THEN SErr("type")
